@@ -111,6 +111,27 @@ def main():
         r.object_store.add_object(t)
         r.refs[b"refs/tags/" + t.name] = t.id
 
+    def op_tag_of_tag(r):
+        # refs/tags/outerN -> tag -> tag -> commit; the inner tag has no ref of its own
+        h = head_of(r, b"refs/heads/main")
+        if h is None:
+            return
+        inner = Tag()
+        inner.name = b"inner%d" % counter[0]
+        inner.object = (Commit, h)
+        outer = Tag()
+        outer.name = b"outer%d" % counter[0]
+        counter[0] += 1
+        for t in (inner, outer):
+            t.tagger = b"a <a@b>"
+            t.tag_time = 1700000000
+            t.tag_timezone = 0
+            t.message = b"t\n"
+        r.object_store.add_object(inner)
+        outer.object = (Tag, inner.id)
+        r.object_store.add_object(outer)
+        r.refs[b"refs/tags/" + outer.name] = outer.id
+
     def op_delete_side(r):
         if head_of(r, b"refs/heads/side"):
             del r.refs[b"refs/heads/side"]
@@ -167,7 +188,7 @@ def main():
         YOUNG.add(b.id)
     AGED = [set()]
     YOUNG = set()
-    SETUP = [op_commit_main, op_commit_side, op_pack_loose, op_dup_pack, op_tag, op_delete_side, op_main_back, op_detach, op_dangling, op_stage, op_octopus, op_age_everything, op_readd_dangling]
+    SETUP = [op_commit_main, op_commit_side, op_pack_loose, op_dup_pack, op_tag, op_delete_side, op_main_back, op_detach, op_dangling, op_stage, op_octopus, op_age_everything, op_readd_dangling, op_tag_of_tag]
 
     # ---- maintenance operations: (name, function, may_remove_unreachable)
     def m_pack_loose(r):
@@ -188,6 +209,9 @@ def main():
     def m_prune0(r):
         G.prune_unreachable_objects(r.object_store, r.refs, grace_period=0)
 
+    def m_prune_day(r):
+        G.prune_unreachable_objects(r.object_store, r.refs, grace_period=86400)
+
     def m_pack_refs(r):
         r.refs.pack_refs(all=True)
 
@@ -197,7 +221,7 @@ def main():
         r.object_store.write_commit_graph()
         G.garbage_collect(r, grace_period=0)
     MAINT = [("pack_loose_objects", m_pack_loose, False), ("repack", m_repack, False), ("gc grace=0", m_gc0, True), ("gc grace=None", m_gc_none, True),
-             ("gc default grace", m_gc_default, True), ("prune_unreachable grace=0", m_prune0, True), ("pack_refs", m_pack_refs, False), ("midx+commit-graph then gc grace=0", m_accel_gc, True)]
+             ("gc default grace", m_gc_default, True), ("prune_unreachable grace=0", m_prune0, True), ("prune_unreachable grace=1 day", m_prune_day, True), ("pack_refs", m_pack_refs, False), ("midx+commit-graph then gc grace=0", m_accel_gc, True)]
 
     def children(o):
         if isinstance(o, Commit):
@@ -263,13 +287,22 @@ def main():
                             lost = [x for x in reach if x not in st]
                             if lost:
                                 fail("a reachable object is gone after maintenance", dict(what, view=view, lost=[allobj[x][0] for x in lost][:5], count=len(lost)))
-                            bad = [x for x in reach if x in st and st.get_raw(x) != allobj[x]]
+                            bad, unreadable = [], []
+                            for x in reach:
+                                if x in st:
+                                    try:
+                                        if st.get_raw(x) != allobj[x]:
+                                            bad.append(x)
+                                    except Exception as e:  # noqa: BLE001
+                                        unreadable.append(repr(e)[:120])
+                            if unreadable:
+                                fail("a reachable object cannot be read after maintenance", dict(what, view=view, count=len(unreadable), exc=unreadable[0]))
                             if bad:
                                 fail("a reachable object changed content", dict(what, view=view))
                             if dict(rr.refs.as_dict()) != refs:
                                 fail("ref values changed", dict(what, view=view))
                             gone = [x for x in allobj if x not in st]
-                            if mname in ("gc default grace",):
+                            if mname in ("gc default grace", "prune_unreachable grace=1 day"):
                                 # default grace (two weeks): only unreachable objects whose every copy is older may go
                                 protected = [x for x in gone if x not in aged or x in young]
                                 if protected:
